@@ -9,6 +9,12 @@ two requests: a parameter value set in place (`P.set_value`), the circuit replac
 HTTP layer); every payload (returned by `prepare_job_payload` or received by `create_job`) is sent
 through JSON, deserialised with `perceval.serialization.deserialize` and compared
 
+The fake handler also plays the network: each execution (`execute_async`, `execute_sync`, `__call__`) has its
+creation request answered, delivered with the answer lost, not delivered or refused, and counts the requests that
+reached the platform — one execution must never create two remote jobs.  Iteration lists include scans and iterations
+that must be refused (photon window, size, unknown parameter) next to every other key; what the executed job carries is
+judged by the direct oracle.
+
 * field by field with the record computed by the Lean model (`Model/C16.lean`, `Driver/C16.lean`),
   symbols resolved on the real objects (circuit by matrix, post-selection by evaluation on states);
 * directly with the user's own objects (the oracle that decides "violation").
